@@ -222,7 +222,7 @@ Proof.
   destruct (register_oneofs_k m _ _ _ _ _ Ereg) as (Hka & _ & Habs & _ & _).
   pose proof (fields_loop_k m (m_fields m) sta exs) as Hf.
   destruct (fields_loop D rec m sta exs (m_fields m)) as [[[stb exs2] ps]| | |] eqn:Ef; cbn [obind Pk pr3 fst] in *; try exact I.
-  destruct (existsb ex_pending exs2); [exact I|]. cbn [Pk fst].
+  destruct (existsb ex_pending exs2); [exact I|]. destruct (negb (exs_names_ok exs2)); [exact I|]. cbn [Pk fst].
   intros k en Hl. rewrite finish_oneofs_other.
   - apply Hf, Hka, Hl.
   - rewrite (fields_loop_keys m _ _ _ _ _ _ Ef). intros Hin. apply in_map_iff in Hin as (e & Hke & He).
@@ -304,7 +304,7 @@ Lemma decl_props_keys m exs ps e :
 Proof.
   unfold decl_props. intros H He.
   destruct (decl_fields D m (decl_exposed m 0 (m_oneofs m)) (m_fields m)) as [[exs0 ps0]|] eqn:Ef; cbn [rbind] in H; [|discriminate].
-  destruct (existsb ex_pending exs0); [discriminate|]. destruct (negb (props_valid ps0)); [discriminate|].
+  destruct (existsb ex_pending exs0); [discriminate|]. destruct (negb (exs_names_ok exs0)); [discriminate|]. destruct (negb (props_valid ps0)); [discriminate|].
   inversion H; subst exs0 ps0.
   pose proof (decl_fields_keys m _ _ _ _ Ef) as Hk.
   assert (Hin : In (ex_key e) (map ex_key exs)) by (apply in_map; exact He).
@@ -547,7 +547,7 @@ Lemma message_properties_decl st m st1 ps :
   In m (d_msgs D) -> Canon D st -> lookup st (msg_key m) = Some Placeholder ->
   message_properties D rec st m = Ok (st1, ps) ->
   exists exs2, decl_fields D m (decl_exposed m 0 (m_oneofs m)) (m_fields m) = ROk (exs2, ps) /\
-               existsb ex_pending exs2 = false /\ Canon D st1 /\
+               existsb ex_pending exs2 = false /\ exs_names_ok exs2 = true /\ Canon D st1 /\
                forall e, In e exs2 -> lookup st1 (ex_key e) = Some (Linked (decl_oneof_of m e)).
 Proof.
   intros Hm HC Hp H. unfold message_properties in H.
@@ -558,8 +558,8 @@ Proof.
   pose proof (fields_loop_k D rec HrecK m (m_fields m) sta exs) as Hkb. rewrite Ef in Hkb. cbn [Pk pr3 fst] in Hkb.
   destruct (fields_loop_decl m _ _ _ _ _ _ HCa Ef) as [Hd HCb].
   pose proof (fields_loop_keys D rec m _ _ _ _ _ _ Ef) as Hkeys.
-  destruct (existsb ex_pending exs2) eqn:Epend; [discriminate|]. inversion H; subst st1 ps2. clear H.
-  exists exs2. rewrite <- Hexs. split; [exact Hd|]. split; [exact Epend|].
+  destruct (existsb ex_pending exs2) eqn:Epend; [discriminate|]. destruct (exs_names_ok exs2) eqn:Enames; cbn [negb] in H; [|discriminate]. inversion H; subst st1 ps2. clear H.
+  exists exs2. rewrite <- Hexs. split; [exact Hd|]. split; [exact Epend|]. split; [exact Enames|].
   (* every record of exs2 has the key of a registered record, whose entry is still the registered one *)
   assert (Hreg : forall e', In e' exs2 -> exists d', lookup stb (ex_key e') = Some (Linked (ROneof (snd (ex_key e')) d' [])) /\
                                             oneof_descr m (ex_key e') = d' /\ exposed_key_b m (ex_key e') = true).
@@ -580,9 +580,9 @@ Lemma build_root_decl st m st1 r :
 Proof.
   intros Hm HC Hp H. unfold build_root in H.
   destruct (message_properties D rec st m) as [[sta ps]| | |] eqn:Em; cbn [obind] in H; try discriminate.
-  destruct (message_properties_decl _ _ _ _ Hm HC Hp Em) as (exs2 & Hd & Hpend & HCa & Hfin).
+  destruct (message_properties_decl _ _ _ _ Hm HC Hp Em) as (exs2 & Hd & Hpend & Hnames & HCa & Hfin).
   destruct (negb (props_valid ps)) eqn:Ev; [discriminate|].
-  assert (Hprops : decl_props D m = ROk (exs2, ps)) by (unfold decl_props; rewrite Hd; cbn [rbind]; rewrite Hpend, Ev; reflexivity).
+  assert (Hprops : decl_props D m = ROk (exs2, ps)) by (unfold decl_props; rewrite Hd; cbn [rbind]; rewrite Hpend, Hnames, Ev; reflexivity).
   assert (Hof : forall st', st' = sta -> oneofs_final D st' m).
   { intros st' ->. intros exs ps' e Hd' He. rewrite Hprops in Hd'. inversion Hd'; subst exs ps'. apply Hfin. exact He. }
   unfold decl_root. rewrite Hprops. cbn [rbind].
